@@ -5,7 +5,46 @@ use crate::ops::guard;
 use crate::term::*;
 use rl2tp::common::{VecWriter, Writer};
 
-pub struct Rng(std::cell::Cell<u64>);
+pub struct Rng(std::cell::Cell<u64>, std::cell::RefCell<Vec<u64>>);
+
+/// numbers a maintainer might single out (line speeds, MTUs, the flag words, CR LF, extremes just inside the range);
+/// to these come the literals found in /repo's sources but not in the tree the model was reconciled with
+/// (`VERIF_DICT_FILE`, written by bin/check when the sources differ): a value singled out by the code is then a value
+/// the streams contain
+const WELL_KNOWN: [u64; 28] = [
+    56000, 64000, 128000, 1_000_000, 10_000_000, 100_000_000, 115200, 9600, 2_048_000, 1_544_000, 1500, 1460, 1492, 576,
+    0x0D0A, 0x1320, 0xC802, 0x2013, 0xFFFF_FFFE, 0x7FFF_FFFF, 0x8000_0000, 0xFFFE, 0x7FFF, 0x8000, 1701, 311, 9, 0xDEAD_BEEF,
+];
+const WELL_KNOWN_TEXT: [&str; 14] = [
+    "localhost", "l2tp", "lac", "lns", "cisco", "Cisco Systems, Inc.", "Microsoft", "xl2tpd", "mpd", "0", "1701", "anonymous", "\r\n", "admin",
+];
+
+fn dictionary() -> &'static (Vec<u64>, Vec<Vec<u8>>) {
+    static D: std::sync::OnceLock<(Vec<u64>, Vec<Vec<u8>>)> = std::sync::OnceLock::new();
+    D.get_or_init(|| {
+        let mut nums = vec![];
+        let mut strs = vec![];
+        if let Ok(p) = std::env::var("VERIF_DICT_FILE") {
+            if let Ok(t) = std::fs::read_to_string(p) {
+                for l in t.lines() {
+                    if let Some(x) = l.strip_prefix("n ") {
+                        if let Ok(v) = x.trim().parse::<u64>() {
+                            nums.push(v);
+                        }
+                    } else if let Some(x) = l.strip_prefix("s ") {
+                        if let Some(b) = unhex(x.trim()) {
+                            if !b.is_empty() {
+                                strs.push(b);
+                            }
+                        }
+                    }
+                }
+            }
+        }
+        (nums, strs)
+    })
+}
+
 impl Rng {
     pub fn new(seed: u64, salt: &str) -> Self {
         let mut h = seed ^ 0x9E3779B97F4A7C15;
@@ -15,7 +54,7 @@ impl Rng {
         if h == 0 {
             h = 1;
         }
-        let r = Rng(std::cell::Cell::new(h));
+        let r = Rng(std::cell::Cell::new(h), std::cell::RefCell::new(vec![]));
         for _ in 0..8 {
             r.next();
         }
@@ -45,33 +84,137 @@ impl Rng {
     pub fn bytes(&self, n: usize) -> Vec<u8> {
         (0..n).map(|_| self.next() as u8).collect()
     }
+    fn remember(&self, v: u64) -> u64 {
+        let mut m = self.1.borrow_mut();
+        if m.len() >= 6 {
+            m.remove(0);
+        }
+        m.push(v);
+        v
+    }
+    /// a value that *coincides* with something: one of the last few numbers drawn (or next to one, or the same low
+    /// half), a well-known number, a literal of the changed source.  Independent uniform draws almost never produce
+    /// tunnel id = session id, Ns = Nr + 1, or the one speed the code singles out; one draw in six does here.
+    fn coincide(&self) -> Option<u64> {
+        let pick = self.below(24);
+        if pick >= 4 {
+            return None;
+        }
+        let recent: Vec<u64> = self.1.borrow().clone();
+        let d = dictionary();
+        match pick {
+            0 | 1 if !recent.is_empty() => {
+                let v = recent[self.below(recent.len())];
+                Some(match self.below(4) {
+                    0 => v.wrapping_add(1),
+                    1 => v.wrapping_sub(1),
+                    _ => v,
+                })
+            }
+            2 => Some(WELL_KNOWN[self.below(WELL_KNOWN.len())]),
+            3 if !d.0.is_empty() => {
+                let v = d.0[self.below(d.0.len())];
+                Some(match self.below(6) {
+                    0 => v.wrapping_add(1),
+                    1 => v.wrapping_sub(1),
+                    _ => v,
+                })
+            }
+            _ => None,
+        }
+    }
     pub fn u16x(&self) -> u16 {
-        match self.below(8) {
+        if let Some(v) = self.coincide() {
+            return self.remember(v & 0xFFFF) as u16;
+        }
+        let v = match self.below(8) {
             0 => 0,
             1 => 1,
             2 => 0xFFFF,
             3 => 0x00FF,
             4 => 0x0100,
             _ => self.next() as u16,
-        }
+        };
+        self.remember(v as u64) as u16
     }
     pub fn u32x(&self) -> u32 {
-        match self.below(8) {
+        if let Some(v) = self.coincide() {
+            return self.remember(v & 0xFFFF_FFFF) as u32;
+        }
+        let v = match self.below(8) {
             0 => 0,
             1 => 1,
             2 => 0xFFFF_FFFF,
             3 => 0x0001_0000,
             4 => 0xC0,
             _ => self.next() as u32,
-        }
+        };
+        self.remember(v as u64) as u32
     }
     pub fn u64x(&self) -> u64 {
-        match self.below(6) {
+        if let Some(v) = self.coincide() {
+            return self.remember(v);
+        }
+        let v = match self.below(6) {
             0 => 0,
             1 => 1,
             2 => u64::MAX,
             _ => self.next(),
+        };
+        self.remember(v)
+    }
+    /// a text a maintainer might single out, a literal of the changed source, or the digits of a number drawn lately
+    pub fn known_text(&self) -> Option<Vec<u8>> {
+        if !self.chance(1, 10) {
+            return None;
         }
+        let d = dictionary();
+        let recent: Vec<u64> = self.1.borrow().clone();
+        match self.below(3) {
+            0 if !d.1.is_empty() => Some(d.1[self.below(d.1.len())].clone()),
+            1 if !recent.is_empty() => Some(recent[self.below(recent.len())].to_string().into_bytes()),
+            _ => Some(WELL_KNOWN_TEXT[self.below(WELL_KNOWN_TEXT.len())].as_bytes().to_vec()),
+        }
+    }
+    /// octets that look like something else: a control or data flag word, an AVP header announcing the rest, the
+    /// image of a number drawn lately, all-equal octets
+    pub fn lookalike(&self, n: usize) -> Option<Vec<u8>> {
+        if n < 2 || !self.chance(1, 12) {
+            return None;
+        }
+        let mut v = self.bytes(n);
+        let recent: Vec<u64> = self.1.borrow().clone();
+        match self.below(5) {
+            0 => {
+                v[0] = 0x13;
+                v[1] = 0x20;
+            }
+            1 => {
+                v[0] = 0xC8;
+                v[1] = 0x02;
+            }
+            2 if n >= 6 => {
+                v[0] = (((n >> 8) & 3) as u8) << 6 | 1;
+                v[1] = n as u8;
+                v[2] = 0;
+                v[3] = 0;
+                v[4] = 0;
+                v[5] = self.below(40) as u8;
+            }
+            3 if !recent.is_empty() => {
+                let x = recent[self.below(recent.len())];
+                let img = x.to_be_bytes();
+                let k = n.min(8);
+                v[..k].copy_from_slice(&img[8 - k..]);
+            }
+            _ => {
+                let b = v[0];
+                for x in v.iter_mut() {
+                    *x = b;
+                }
+            }
+        }
+        Some(v)
     }
 }
 
@@ -212,11 +355,11 @@ pub fn gen_avp_kind(r: &Rng, kind: &str, big: bool) -> TAvp {
             };
             a(vec![r.u16x().to_string(), (r.next() as u8).to_string(), adv])
         }
-        "ChallengeResponse" => a(vec![hex(&r.bytes(16))]),
-        "RandomVector" | "PhysicalChannelId" => a(vec![hex(&r.bytes(4))]),
+        "ChallengeResponse" => a(vec![hex(&r.lookalike(16).unwrap_or_else(|| r.bytes(16)))]),
+        "RandomVector" | "PhysicalChannelId" => a(vec![hex(&r.u32x().to_be_bytes())]),
         "ProxyAuthenId" => a(vec![(r.next() as u8).to_string()]),
         "CallErrors" => a((0..6).map(|_| r.u32x().to_string()).collect()),
-        "Accm" => a(vec![hex(&r.bytes(4)), hex(&r.bytes(4))]),
+        "Accm" => a(vec![hex(&r.u32x().to_be_bytes()), hex(&r.u32x().to_be_bytes())]),
         "SequencingRequired" => a(vec![]),
         k if U16_KINDS.contains(&k) => a(vec![r.u16x().to_string()]),
         k if U32_KINDS.contains(&k) => a(vec![r.u32x().to_string()]),
@@ -232,11 +375,13 @@ pub fn gen_avp_kind(r: &Rng, kind: &str, big: bool) -> TAvp {
         }
         k if BYTE_KINDS.contains(&k) => {
             let l = var_len(r, 1017, big);
-            a(vec![hex(&r.bytes(l))])
+            let v = r.lookalike(l).or_else(|| r.known_text()).unwrap_or_else(|| r.bytes(l));
+            a(vec![hex(&v)])
         }
         k if STR_KINDS.contains(&k) => {
             let l = var_len(r, 1017, big);
-            a(vec![hex(&utf8(r, l))])
+            let v = r.known_text().unwrap_or_else(|| utf8(r, l));
+            a(vec![hex(&v)])
         }
         "Hidden" => {
             let t = if r.chance(3, 4) { r.below(40) as u16 } else { r.u16x() };
@@ -261,12 +406,57 @@ pub fn gen_avp(r: &Rng, big: bool) -> TAvp {
     gen_avp_kind(r, k, big)
 }
 
+/// the AVP sets RFC 2661 §6 gives each control message (mandatory ones, then optional ones each present half of the
+/// time), in the RFC's order, sometimes with a Random Vector in front of a later AVP
+pub fn rfc_message(r: &Rng) -> TMsg {
+    const SHAPES: [(&str, &[&str], &[&str]); 14] = [
+        ("StartControlConnectionRequest", &["ProtocolVersion", "HostName", "FramingCapabilities", "AssignedTunnelId"], &["BearerCapabilities", "ReceiveWindowSize", "Challenge", "TieBreaker", "FirmwareRevision", "VendorName"]),
+        ("StartControlConnectionReply", &["ProtocolVersion", "FramingCapabilities", "HostName", "AssignedTunnelId"], &["BearerCapabilities", "FirmwareRevision", "VendorName", "ReceiveWindowSize", "Challenge", "ChallengeResponse"]),
+        ("StartControlConnectionConnected", &[], &["ChallengeResponse"]),
+        ("StopControlConnectionNotification", &["AssignedTunnelId", "ResultCode"], &[]),
+        ("Hello", &[], &[]),
+        ("OutgoingCallRequest", &["AssignedSessionId", "CallSerialNumber", "MinimumBps", "MaximumBps", "BearerType", "FramingType", "CalledNumber"], &["SubAddress"]),
+        ("OutgoingCallReply", &["AssignedSessionId"], &["PhysicalChannelId"]),
+        ("OutgoingCallConnected", &["TxConnectSpeed", "FramingType"], &["RxConnectSpeed", "SequencingRequired"]),
+        ("IncomingCallRequest", &["AssignedSessionId", "CallSerialNumber"], &["BearerType", "PhysicalChannelId", "CallingNumber", "CalledNumber", "SubAddress"]),
+        ("IncomingCallReply", &["AssignedSessionId"], &[]),
+        ("IncomingCallConnected", &["TxConnectSpeed", "FramingType"], &["InitialReceivedLcpConfReq", "LastSentLcpConfReq", "LastReceivedLcpConfReq", "ProxyAuthenType", "ProxyAuthenName", "ProxyAuthenChallenge", "ProxyAuthenId", "ProxyAuthenResponse", "PrivateGroupId", "RxConnectSpeed", "SequencingRequired"]),
+        ("CallDisconnectNotify", &["ResultCode", "AssignedSessionId"], &["Q931CauseCode"]),
+        ("WanErrorNotify", &["CallErrors"], &[]),
+        ("SetLinkInfo", &["Accm"], &[]),
+    ];
+    let (mt, must, may) = SHAPES[r.below(SHAPES.len())];
+    let mut avps = vec![TAvp::new("MessageType", vec![mt.to_string()])];
+    for k in must.iter() {
+        avps.push(gen_avp_kind(r, k, false));
+    }
+    for k in may.iter() {
+        if r.chance(1, 2) {
+            avps.push(gen_avp_kind(r, k, false));
+        }
+    }
+    if avps.len() > 2 && r.chance(1, 4) {
+        let at = 1 + r.below(avps.len() - 1);
+        avps.insert(at, gen_avp_kind(r, "RandomVector", false));
+    }
+    let tid = r.u16x();
+    TMsg::Control { len: 0, tid, sid: if r.chance(1, 3) { 0 } else { r.u16x() }, ns: r.u16x(), nr: r.u16x(), avps }
+}
+
 pub fn gen_control(r: &Rng, max_avps: usize, big: bool) -> TMsg {
+    if max_avps >= 3 && r.chance(1, 6) {
+        return rfc_message(r);
+    }
     let n = if r.chance(1, 10) { 0 } else { 1 + r.below(max_avps.max(1)) };
     let mut avps = vec![];
     for i in 0..n {
         if i == 0 {
             avps.push(gen_avp_kind(r, "MessageType", false));
+        } else if i >= 2 && r.chance(1, 10) {
+            // the same AVP again (same kind, same value), next to or away from the first
+            let j = 1 + r.below(i - 1);
+            let dup = TAvp::new(&avps[j].kind, avps[j].args.clone());
+            avps.push(dup);
         } else {
             avps.push(gen_avp(r, big && r.chance(1, 4)));
         }
